@@ -9,6 +9,8 @@ C03 model: field algebra (`discretisedfield/field.py`).
   `dtype=None`), with the `vdims` / `vdim_mapping` / `valid` setters;
 * `applyOperator` is `Field._apply_operator`; `dotOp`, `crossOp`, `shlOp`, `angleOp`,
   `ufunc1`, `ufunc2` are `dot`, `cross`, `__lshift__`, `angle`, `__array_ufunc__`;
+  `ufunc2pair` / `ufunc1pair` are the tuple branch of `__array_ufunc__` (two-output ufuncs:
+  `np.divmod(f, g)`, `np.modf(f)`);
 * `evalF` evaluates an expression tree the way Python does (operand types select the
   forward / reflected / ufunc path); `evalCell` / `validCell` are the per-cell spec.
 
